@@ -129,7 +129,7 @@ class Divider(FormulaStep):
         """
         val2 = eval_stack.pop()
         val1 = eval_stack.pop()
-        res = val1 / val2
+        res = math.nan if val2 == 0.0 else val1 / val2
         eval_stack.append(res)
 
 
